@@ -82,7 +82,7 @@ var freshExternal = map[string]bool{
 
 // external functions that mutate their first argument (slice/map/pointer)
 var mutatingExternal = map[string][]int{
-	"slices.Sort": {0}, "sort.Strings": {0}, "sort.Ints": {0}, "slices.SortFunc": {0}, "sort.Slice": {0}, "slices.Reverse": {0},
+	"slices.Sort": {0}, "sort.Strings": {0}, "sort.Ints": {0}, "slices.SortFunc": {0}, "sort.Slice": {0}, "slices.Reverse": {0}, "slices.Insert": {0}, "slices.Delete": {0},
 	"(http.Header).Add": {0}, "(http.Header).Set": {0}, "(http.Header).Del": {0}, "maps.Copy": {0},
 	"(*sync.RWMutex).Lock": {}, "(*sync.RWMutex).Unlock": {}, "(*sync.RWMutex).RLock": {}, "(*sync.RWMutex).RUnlock": {},
 	"(*sync.Mutex).Lock": {}, "(*sync.Mutex).Unlock": {},
